@@ -426,6 +426,9 @@ func init() {
 		if HookExtra != nil {
 			HookExtra(name)
 		}
+		if HookSched != nil {
+			HookSched(name)
+		}
 		if r := activeRun; r != nil {
 			r.hook(name)
 		}
